@@ -76,6 +76,11 @@ def r1(ctx):
               "flush_context.execute() and transaction.commit() are not inside one try whose last statement is the commit",
               "try: ... execute() ... finalize ... commit()", f.loc)
     if T is None:
+        cands = [t for t, part in enclosing_try(pm, exec_stmt) if part == "body" and t.handlers]
+        T = cands[-1] if cands else None
+    if T is None:
+        ctx.violation(f"{f.key}:handler", "no exception handler around flush_context.execute()", f.loc)
+        ctx.violation(f"{f.key}:exceptional-paths-roll-back", "no exception handler around flush_context.execute()", f.loc)
         return
     # (b) handlers
     bad = []
